@@ -13,6 +13,9 @@ def run(ctx):
     h = ctx.build_harness("h_linalg", libs=())
     n, ln = ("2500", "14") if ctx.tier == "quick" else ("60000", "16")
     s, _, _, _ = ctx.pipe([h, "objects", n, ln], "objects")
+    if any(b[0].startswith("harness objects exited") for b in ctx.broken):
+        # the real classes crashed inside a history: name the history and the operation
+        ctx.crash_probe([h, "objects", n, ln], "objects-crash", start_re=r"^H\b")
     ctx.cov["input_distribution"]["objects"]["target"] = "copy-after-solve for the tridiagonal solver in >= 20% of its copies"
     if ctx.tier == "thorough":
         ha = ctx.build_harness("h_linalg", variant="asan", libs=())
